@@ -19,13 +19,16 @@ THEOREMS = [
     dict(name="Snow.C11.cn_old_counterexample", clause="concrete witness: product and shelf at 20 C, cnTemp -8 C: nucleation at step 0 with T_nuc_min = 20 C", strength="refutation-of-old-code"),
     dict(name="Snow.C11.cn_new_waits", clause="the repaired model does not fire at step 0 while the product is warmer than cnTemp", strength="full"),
     dict(name="Snow.C11.nonvacuous", clause="hypotheses are satisfiable (trigger below the initial temperature, reached by the run)", strength="nonvacuity"),
+    dict(name="Snow.C11.cn_trigger_first_2D", clause="2D: cooling ends at the first step whose coldest point is <= cnTemp, not before", strength="full"),
+    dict(name="Snow.C11.coolStep2D_min_ge", clause="2D: one repaired cooling step without evaporation keeps the coldest point >= min(old coldest point, shelf) (C07 maximum principle)", strength="full"),
+    dict(name="Snow.C11.cn_Tnuc_close_2D", clause="2D (repaired, shelf/jacket, C07 stability hypotheses): cnTemp >= T_nuc_min >= min(coldest point before the step, shelf temperature)", strength="full"),
 ]
 TRUSTED = [
     "Lean 4.33 kernel; axioms per theorem listed under coverage.axioms",
     "theorems are over the reals: IEEE rounding is not modelled",
     "hand-written models SnowModel/Snowing0D.lean, Snowing1D.lean tied to snowing.py by this differential check; "
     "the 1D model's controlled-nucleation test is the REPAIRED one (cnTest); cnTestOld mirrors the pre-fix code",
-    "2D: no Lean model in this work package - covered by the predicates on real 2D runs only",
+    "2D model SnowModel/Snowing2D.lean (work package G; its test is the repaired T_k.min() <= cnTemp + 273.15); tied here by real 2D runs",
 ]
 ASSUMPTIONS = [
     "trigger temperature below the initial temperature; 1D bound under the CFL hypothesis 0 <= Fo <= 1/2",
@@ -38,7 +41,7 @@ RULE = ("boundary inputs in every dimensionality (cnTemp = 0 and 0.0; solution.T
 EXPLANATION = ("Lean theorems about the controlled-nucleation branch of the cooling loop + differential check against "
                "Snowing.run(); the trigger condition re-evaluated on the real recorded fields")
 PARALLEL = True
-LEVEL_TEXT = ("Lean 4 theorems about executable models of _run_0D and _run_1D (exact real arithmetic), tied to /repo by a differential check. Proved in full: 0D and 1D (repaired test T_k.min() <= cnTemp + 273.15): controlled nucleation is triggered at the first step at which the product / its coldest point has reached cnTemp and not before; the reported nucleation temperature lies within one step's cooling below cnTemp (0D: exact step formula; 1D: discrete minimum principle under 0 <= Fo <= 1/2, bound = the ghost-point increments). Refuted for the unrepaired code: the test T_k.any() <= cnTemp + 273.15 is true for every field and every cnTemp >= -272.15, so nucleation fires at step 0 (general theorem + concrete witness); replayed on the real code (F4, fixes/F4.diff). PARTIAL with respect to the quantifier: 2D has no theorem here (same defect, same one-line repair); it is covered by the predicates on real 2D runs.")
+LEVEL_TEXT = ("Lean 4 theorems about executable models of _run_0D and _run_1D (exact real arithmetic), tied to /repo by a differential check. Proved in full: 0D and 1D (repaired test T_k.min() <= cnTemp + 273.15): controlled nucleation is triggered at the first step at which the product / its coldest point has reached cnTemp and not before; the reported nucleation temperature lies within one step's cooling below cnTemp (0D: exact step formula; 1D: discrete minimum principle under 0 <= Fo <= 1/2, bound = the ghost-point increments). Refuted for the unrepaired code: the test T_k.any() <= cnTemp + 273.15 is true for every field and every cnTemp >= -272.15, so nucleation fires at step 0 (general theorem + concrete witness); replayed on the real code (F4, fixes/F4.diff). 2D (SnowModel/Snowing2D.lean): trigger at the first step whose coldest point reaches cnTemp; T_nuc_min between min(previous coldest point, shelf temperature) and cnTemp for the shelf and jacket configurations under the stability hypotheses of C07. PARTIAL: for the 2D VISF configuration only the trigger theorem is proved (the one-step bound would need the evaporative ghost increment, which the 1D theorem has); real 2D runs, VISF included, are compared with the model and evaluated by the predicates.")
 
 
 def run_impl(case):
@@ -47,7 +50,9 @@ def run_impl(case):
 
 def run_model(drv, case):
     if case["dim"] == "2D":
-        return None
+        m = su.model_2d(drv, case, su.programs(case)[0], 0.5)
+        m["is2D"] = True
+        return m
     rec = su.record_inputs(case)
     if rec.get("raise"):
         return {"raise": rec["raise"], "stage": "init"}
@@ -91,6 +96,8 @@ def compare(case, impl, model):
         return []
     if impl.get("raise"):
         return [] if impl["raise"] == model.get("raise") else [f"init exception: impl {impl['raise']}"]
+    if model.get("is2D"):
+        return su.compare_2d(case, impl["runs"][0], model, arrays=False)
     d_new = _cmp_one(case, impl, model["new"])
     if not d_new:
         return []
